@@ -507,7 +507,17 @@ pub fn minimise(env: &Env, start: MiniWorld, item: Option<Item>, d0: Divergence,
     }
 
     // drop input definitions nobody uses any more
-    let used: Vec<u32> = cur.reference.events.iter().chain(cur.bad.events.iter()).filter_map(|e| if let Event::Expand { input, .. } | Event::ExpandTokens { input, .. } = e { Some(*input) } else { None }).collect();
+    let mut used: Vec<u32> = cur.reference.events.iter().chain(cur.bad.events.iter()).filter_map(|e| if let Event::Expand { input, .. } | Event::ExpandTokens { input, .. } = e { Some(*input) } else { None }).collect();
+    // (the members of a concurrent group are used too)
+    for e in cur.reference.events.iter().chain(cur.bad.events.iter()) {
+        if let Event::ExpandPair { a_input, b_input, third, .. } = e {
+            used.push(*a_input);
+            used.push(*b_input);
+            if let Some((_, c)) = third {
+                used.push(*c);
+            }
+        }
+    }
     cur.texts.retain(|t| used.contains(&t.0));
 
     let m = fault_mask(&cur, target);
